@@ -314,6 +314,39 @@ Section Stream.
   Qed.
 End Stream.
 
+(* ================================================================== the destination fails *)
+Definition total_len (writes : list N) : N := fold_right N.add 0 writes.
+
+Lemma write_all_spec writes : forall room, write_all writes room = (total_len writes <=? room).
+Proof.
+  induction writes as [|n r IH]; intros room; cbn [write_all total_len fold_right].
+  - symmetry. apply N.leb_le. lia.
+  - destruct (N.leb_spec n room) as [H|H].
+    + rewrite IH. fold (total_len r). destruct (N.leb_spec (total_len r) (room - n)); symmetry; [apply N.leb_le | apply N.leb_gt]; lia.
+    + symmetry. apply N.leb_gt. fold (total_len r). lia.
+Qed.
+
+Lemma total_len_app a b : total_len (a ++ b) = total_len a + total_len b.
+Proof. induction a as [|x a IH]; cbn [app total_len fold_right]; [reflexivity|]. fold (total_len (a ++ b)) (total_len a). lia. Qed.
+
+(* however the stream is split into writes (copy loop, then Close), a destination that cannot take all of it
+   makes the backup fail, and one that can lets it succeed: the rule the tie evaluates *)
+Theorem destination_failure_is_error copy_writes close_writes room :
+  backup_result copy_writes close_writes room
+  = producer_ok (total_len copy_writes + total_len close_writes) room.
+Proof. unfold backup_result, producer_ok. rewrite write_all_spec, total_len_app. reflexivity. Qed.
+
+Corollary destination_failure_never_success copy_writes close_writes room :
+  room < total_len copy_writes + total_len close_writes -> backup_result copy_writes close_writes room = false.
+Proof. intros H. rewrite destination_failure_is_error. unfold producer_ok. apply N.leb_gt. exact H. Qed.
+
+(* a backup that looks only at the copy loop's writes (the error of Close dropped) reports success for a
+   destination that failed during the final flush *)
+Theorem close_error_dropped_refuted :
+  exists copy_writes close_writes room,
+    room < total_len copy_writes + total_len close_writes /\ write_all copy_writes room = true.
+Proof. exists [10; 32768], [4000; 8], 36000. split; vm_compute; reflexivity. Qed.
+
 (* a stream cut anywhere is never answered with 200 *)
 Theorem cut_is_never_200 hdr gz cut written :
   cut < hdr + gz -> http_status (client_ok hdr gz cut) written <> H200.
